@@ -522,16 +522,16 @@ func init() {
 	allChecks = append(allChecks, &Check{
 		ID: "C19", Level: "model_checking",
 		Harnesses: []Harness{
-			{Name: "C19_step", Pkg: "component/metrics", Func: "H_C19_step", Reach: []string{"done"},
+			{Name: "C19_step", Pkg: "zzh", Func: "H_C19_step", Reach: []string{"done"},
 				What:  "one Accumulate from an arbitrary pre-state {total:T, correct:C}: total' = T+n, correct' = C + #equal positions, Result = correct/total in [0,1]",
 				Items: tiered(func() []Item { return items(map[string]int64{"maxn": 3}) }, func() []Item { return items(map[string]int64{"maxn": 6}) })},
-			{Name: "C19_split", Pkg: "component/metrics", Func: "H_C19_split", Reach: []string{"done"},
+			{Name: "C19_split", Pkg: "zzh", Func: "H_C19_split", Reach: []string{"done"},
 				What:  "the same batch in one call or split at every position into two calls gives the same counters",
 				Items: tiered(func() []Item { return items(map[string]int64{"maxn": 3}) }, func() []Item { return items(map[string]int64{"maxn": 5}) })},
-			{Name: "C19_invalid", Pkg: "component/metrics", Func: "H_C19_invalid", Reach: []string{"done"},
+			{Name: "C19_invalid", Pkg: "zzh", Func: "H_C19_invalid", Reach: []string{"done"},
 				What:  "nil tensors, wrong rank (0 and 2), mismatched lengths: error, counters unchanged",
 				Items: func(string) []Item { return modes(6) }},
-			{Name: "C19_fp", Pkg: "component/metrics", Func: "H_C19_fp", Reach: []string{"done"}, FP: true,
+			{Name: "C19_fp", Pkg: "zzh", Func: "H_C19_fp", Reach: []string{"done"}, FP: true,
 				What:  "BIT-PRECISE (float64 = IEEE-754 binary64 in the SMT FloatingPoint theory, int = 64-bit words): one Accumulate of a batch of exactly n positions from an arbitrary pre-state below 2^20; counters exact for every match count 0..n (prefix patterns) and for every match pattern (free patterns, small n); Result is the correctly rounded quotient of the counters",
 				Items: tiered(func() []Item { return fpItems(32, 6) }, func() []Item { return fpItems(64, 12) })},
 		},
